@@ -35,6 +35,20 @@ bool LocID::hasAttr(const std::string &name) const {
 }
 
 
+void LocID::checkWritable() const {
+    hid_t fid = H5Iget_file_id(hid);
+    if (fid < 0) {
+        return;
+    }
+    unsigned intent = 0;
+    herr_t res = H5Fget_intent(fid, &intent);
+    H5Fclose(fid);
+    if (res >= 0 && (intent & H5F_ACC_RDWR) == 0) {
+        throw H5Error(-1, "LocID::checkWritable(): file is opened read-only");
+    }
+}
+
+
 void LocID::removeAttr(const std::string &name) const {
     HErr res = H5Adelete(hid, name.c_str());
     res.check("LocID::removeAttr(): could not delete attribute");
